@@ -1,6 +1,7 @@
 import SqiModel.GfX86
 namespace SqiProofs.GfX86
 set_option exponentiation.threshold 4096
+set_option maxRecDepth 20000
 open SqiModel.Gf SqiModel.Gf.X86
 
 /-- the three parameter sets -/
@@ -108,5 +109,143 @@ theorem equals_spec (P : X86Params) (hP : IsLvl P) (a b : Nat) (ha : a < 2 ^ P.B
   rw [h3]
   generalize sub P a b = d at *
   rcases hP with rfl | rfl | rfl <;> lvl_unfold <;> omega
+
+
+/-! ### select / cswap -/
+
+theorem replLimb_zero (n : Nat) : Ref.replLimb n 0 = 0 := by
+  induction n with
+  | zero => rfl
+  | succ k ih => simp [Ref.replLimb, ih]
+
+theorem replLimb_ones (P : X86Params) (hP : IsLvl P) : Ref.replLimb P.n (2 ^ 64 - 1) = P.R - 1 := by
+  rcases hP with rfl | rfl | rfl <;> decide
+
+theorem ctlWord_zero : Ref.ctlWord 0 = 0 := by decide
+theorem ctlWord_T32 : Ref.ctlWord T32 = 2 ^ 64 - 1 := by decide
+
+theorem select_zero (P : X86Params) (a0 a1 : Nat) : select P a0 a1 0 = a0 := by
+  simp [select, ctlWord_zero, replLimb_zero]
+
+theorem select_T32 (P : X86Params) (hP : IsLvl P) (a0 a1 : Nat) (h0 : a0 < P.R) (h1 : a1 < P.R) :
+    select P a0 a1 T32 = a1 := by
+  unfold select
+  rw [ctlWord_T32, replLimb_ones P hP, Nat.and_comm]
+  have hx : a0 ^^^ a1 < P.R := Nat.xor_lt_two_pow h0 h1
+  unfold X86Params.R at *
+  rw [Nat.and_two_pow_sub_one_eq_mod, Nat.mod_eq_of_lt hx, ← Nat.xor_assoc, Nat.xor_self, Nat.zero_xor]
+
+theorem cswap_zero (P : X86Params) (a b : Nat) : cswap P a b 0 = (a, b) := by
+  simp [cswap, ctlWord_zero, replLimb_zero]
+
+theorem cswap_T32 (P : X86Params) (hP : IsLvl P) (a b : Nat) (h0 : a < P.R) (h1 : b < P.R) :
+    cswap P a b T32 = (b, a) := by
+  unfold cswap
+  simp only
+  rw [ctlWord_T32, replLimb_ones P hP, Nat.and_comm]
+  have hx : a ^^^ b < P.R := Nat.xor_lt_two_pow h0 h1
+  unfold X86Params.R at *
+  rw [Nat.and_two_pow_sub_one_eq_mod, Nat.mod_eq_of_lt hx]
+  congr 1
+  · rw [← Nat.xor_assoc, Nat.xor_self, Nat.zero_xor]
+  · rw [Nat.xor_comm a b, ← Nat.xor_assoc, Nat.xor_self, Nat.zero_xor]
+
+/-! ### partial_reduce, set_small, normalize -/
+
+theorem sub64_eq (a b : Nat) (ha : a < 2 ^ 64) (hb : b ≤ a) : sub64 a b = a - b := by
+  unfold sub64; omega
+
+/-- the small multiply-shift division is exact on the range of `h` that occurs (`h < 2^(64−s)`) -/
+theorem smallQuo_eq (P : X86Params) (hP : IsLvl P) (h : Nat) (hh : h < 2 ^ (64 - P.s)) :
+    h * P.smallMul % 2 ^ 64 / 2 ^ P.smallSh = h / P.c := by
+  have h0 : h * P.smallMul % 2 ^ 64 = h * P.smallMul := by
+    apply Nat.mod_eq_of_lt
+    rcases hP with rfl | rfl | rfl <;> lvl_unfold <;> omega
+  rw [h0]
+  rcases hP with rfl | rfl | rfl <;> lvl_unfold <;> omega
+
+theorem sub64_rem (c h : Nat) (hh : h < 2 ^ 64) : sub64 h (c * (h / c)) = h % c := by
+  have h1 := Nat.div_add_mod h c
+  have h2 : c * (h / c) ≤ h := Nat.mul_div_le h c
+  unfold sub64
+  omega
+
+/-- any `n`-limb value is brought below `2^B` without changing its class -/
+theorem partial_reduce_spec (P : X86Params) (hP : IsLvl P) (a : Nat) (ha : a < P.R) :
+    partial_reduce P a < 2 ^ P.B ∧ partial_reduce P a % P.q = a % P.q := by
+  unfold partial_reduce
+  simp only
+  have hh : a / 2 ^ P.e < 2 ^ (64 - P.s) := by
+    rcases hP with rfl | rfl | rfl <;> lvl_unfold <;> omega
+  have hh2 : a / 2 ^ P.e % 2 ^ 64 = a / 2 ^ P.e := by
+    apply Nat.mod_eq_of_lt
+    have : 2 ^ (64 - P.s) ≤ 2 ^ 64 := Nat.pow_le_pow_right (by decide) (by omega)
+    omega
+  rw [hh2, smallQuo_eq P hP _ hh, sub64_rem _ _ (by
+    have : 2 ^ (64 - P.s) ≤ 2 ^ 64 := Nat.pow_le_pow_right (by decide) (by omega)
+    omega)]
+  have h1 := Nat.div_add_mod a (2 ^ P.e)
+  have h2 := Nat.div_add_mod (a / 2 ^ P.e) P.c
+  have h3 : a / 2 ^ P.e % P.c < P.c := Nat.mod_lt _ (by rcases hP with rfl | rfl | rfl <;> decide)
+  generalize a / 2 ^ P.e % P.c = r at *
+  generalize a / 2 ^ P.e / P.c = k at *
+  generalize a / 2 ^ P.e = h at *
+  have h4 : a % 2 ^ P.e < 2 ^ P.e := Nat.mod_lt _ (Nat.pow_pos (by decide))
+  generalize a % 2 ^ P.e = lo at *
+  subst h1
+  have h5 : r * 2 ^ P.s % 2 ^ 64 = r * 2 ^ P.s := by
+    apply Nat.mod_eq_of_lt
+    rcases hP with rfl | rfl | rfl <;> lvl_unfold <;> omega
+  rw [h5]
+  subst h2
+  have h6 : (lo + k + r * 2 ^ P.s * P.topW) % P.R = lo + k + r * 2 ^ P.s * P.topW := by
+    apply Nat.mod_eq_of_lt
+    rcases hP with rfl | rfl | rfl <;> lvl_unfold <;> omega
+  have h7 : 2 ^ P.e * (P.c * k + r) + lo = lo + k + r * 2 ^ P.s * P.topW + k * P.q := by
+    rcases hP with rfl | rfl | rfl <;> lvl_unfold <;> omega
+  rw [h6, h7, Nat.add_mul_mod_self_right]
+  refine ⟨?_, rfl⟩
+  rcases hP with rfl | rfl | rfl <;> lvl_unfold <;> omega
+
+
+/-- the 64-bit multiply-shift division by `c` is exact for every 64-bit `h` -/
+theorem bigQuo_eq (P : X86Params) (hP : IsLvl P) (h : Nat) (hh : h < 2 ^ 64) : bigQuo P h = h / P.c := by
+  unfold bigQuo
+  have h0 : h * P.bigMul / 2 ^ 64 % 2 ^ 64 = h * P.bigMul / 2 ^ 64 := by
+    apply Nat.mod_eq_of_lt
+    rcases hP with rfl | rfl | rfl <;> lvl_unfold <;> omega
+  rw [h0, Nat.div_div_eq_div_mul]
+  rcases hP with rfl | rfl | rfl <;> lvl_unfold <;> omega
+
+/-- `set_small x` is the Montgomery form of `x` -/
+theorem set_small_spec (P : X86Params) (hP : IsLvl P) (x : Nat) :
+    set_small P x < 2 ^ P.B ∧ set_small P x % P.q = (x % 2 ^ 32 * P.R) % P.q := by
+  unfold set_small
+  simp only
+  have hx : x % 2 ^ 32 < 2 ^ 32 := Nat.mod_lt _ (by decide)
+  generalize x % 2 ^ 32 = y at *
+  have hh : y * 2 ^ (64 - P.s) < 2 ^ 64 := by
+    rcases hP with rfl | rfl | rfl <;> lvl_unfold <;> omega
+  rw [bigQuo_eq P hP _ hh, sub64_rem _ _ hh]
+  have h2 := Nat.div_add_mod (y * 2 ^ (64 - P.s)) P.c
+  have h3 : y * 2 ^ (64 - P.s) % P.c < P.c := Nat.mod_lt _ (by rcases hP with rfl | rfl | rfl <;> decide)
+  generalize y * 2 ^ (64 - P.s) % P.c = r at *
+  generalize y * 2 ^ (64 - P.s) / P.c = k at *
+  have h5 : r * 2 ^ P.s % 2 ^ 64 = r * 2 ^ P.s := by
+    apply Nat.mod_eq_of_lt
+    rcases hP with rfl | rfl | rfl <;> lvl_unfold <;> omega
+  rw [h5]
+  have h7 : y * P.R = k + r * 2 ^ P.s * P.topW + k * P.q := by
+    rcases hP with rfl | rfl | rfl <;> lvl_unfold <;> omega
+  rw [h7, Nat.add_mul_mod_self_right]
+  refine ⟨?_, rfl⟩
+  rcases hP with rfl | rfl | rfl <;> lvl_unfold <;> omega
+
+theorem normalize_spec (P : X86Params) (hP : IsLvl P) (a : Nat) (ha : a < 2 ^ P.B) :
+    normalize P a < P.q ∧ normalize P a % P.q = a % P.q := by
+  unfold normalize
+  split
+  · exact ⟨by assumption, rfl⟩
+  · rcases hP with rfl | rfl | rfl <;> lvl_unfold <;> omega
 
 end SqiProofs.GfX86
